@@ -576,11 +576,42 @@ def bounded_iter_ty(ty, depth=0):
         return True
     if path in BOUNDED_ADAPTORS:
         return bool(targs) and bounded_iter_ty(targs[0], depth + 1)
+    if path == 'core::iter::adapters::flatten::FlatMap':
+        # FlatMap<I, U, F>: finitely many outer items, each mapped to a finite sequence U
+        return len(targs) >= 2 and bounded_iter_ty(targs[0], depth + 1) and bounded_iterable_ty(targs[1], depth + 1)
+    if path == 'core::iter::adapters::flatten::Flatten':
+        return bool(targs) and bounded_iter_ty(targs[0], depth + 1) and bounded_iterable_ty(iter_item_ty(targs[0]), depth + 1)
     if path in BOUNDED_BOTH:
         return len(targs) >= 2 and bounded_iter_ty(targs[0], depth + 1) and bounded_iter_ty(targs[1], depth + 1)
     if path in BOUNDED_EITHER:
         return len(targs) >= 2 and (bounded_iter_ty(targs[0], depth + 1) or bounded_iter_ty(targs[1], depth + 1))
     return False
+
+
+def bounded_iterable_ty(ty, depth=0):
+    """IntoIterator types with finitely many items"""
+    if not isinstance(ty, dict):
+        return False
+    if ty.get('k') in ('array', 'slice'):
+        return True
+    if ty.get('k') == 'ref':
+        return bounded_iterable_ty(ty.get('ty'), depth + 1)
+    if ty.get('k') == 'adt' and ty.get('path') in ('core::option::Option', 'core::result::Result', 'heapless::vec::Vec', 'heapless::histbuf::HistoryBuffer'):
+        return True
+    return bounded_iter_ty(ty, depth + 1)
+
+
+def iter_item_ty(ty):
+    """item type of a bounded source / item-preserving adaptor chain (None when a closure decides it)"""
+    if not isinstance(ty, dict) or ty.get('k') != 'adt':
+        return None
+    path = ty.get('path', '')
+    targs = [a.get('ty') for a in ty.get('args', []) if isinstance(a, dict) and 'ty' in a]
+    if path in BOUNDED_SOURCES:
+        return targs[0] if targs else None
+    if path in BOUNDED_ADAPTORS and not path.endswith(('::Map', '::FilterMap', '::MapWhile', '::Enumerate')):
+        return iter_item_ty(targs[0]) if targs else None
+    return None
 
 
 def loops(res, facts, rankings=None):
